@@ -361,7 +361,7 @@ func c19Digest(t []string) string {
 func c19Exec(run *ev.Run, c ev.Case) {
 	var rd c19Round
 	c.Decode(&rd)
-	run.Eval(1)
+	run.Eval(rd.N)
 	c19TraceMu.Lock()
 	c19Trace = c19Trace[:0]
 	c19TraceMu.Unlock()
